@@ -352,10 +352,13 @@ func c24Routing(c *engine.Ctx) {
 	}
 	rpcErrID, _ := constInt(c, "mt", "RPCErrorTypeID")
 	var idCmp *ssa.BinOp
+	var idVal ssa.Value
 	engine.Instrs(hr, func(i ssa.Instruction) {
-		if b, ok := i.(*ssa.BinOp); ok && b.Op == token.EQL {
-			if k, isK := engine.ConstInt(b.Y); isK && k == rpcErrID {
-				idCmp = b
+		if b, ok := i.(*ssa.BinOp); ok {
+			if cm, isCmp := engine.CmpOf(b); isCmp && cm.Op == token.EQL {
+				if k, isK := engine.ConstInt(cm.Y); isK && k == rpcErrID {
+					idCmp, idVal = b, cm.X
+				}
 			}
 		}
 	})
@@ -363,7 +366,7 @@ func c24Routing(c *engine.Ctx) {
 	if idCmp == nil {
 		c.Fail("C24.R5", "handleResult/dispatch-on-rpc-error", hr.Pos(), "handleResult must test the inner type id against rpc_error")
 	} else {
-		ok, why := idBufferAgree(idCmp.X, bufV)
+		ok, why := idBufferAgree(idVal, bufV)
 		c.Check(ok, "C24.R5", "handleResult/id-matches-buffer", idCmp.Pos(), "the id tested for rpc_error and the buffer handed to the caller's decoder must belong together on every path (a gzipped rpc_error must be recognised as an error, not decoded as the result): %s", why)
 	}
 	c.Floor("C24.R5", 3, n)
